@@ -1,3 +1,5 @@
+//go:build fam_bandtss || fam_all
+
 package main
 
 import "vdrive/fam_bandtss"
